@@ -1,12 +1,13 @@
 """C11 — caller-owned data is never modified; cached callback results are safe."""
 from ..gen import Gen
 from ..unit import run_unit
-from .. import camp_props
+from .. import camp_props, common
 
-PROP_FILES = []
+PROP_FILES = ["props/C11.v"]
 TECHNIQUE = "Coq proof + regenerated structural facts + correspondence"
 
 
 def run(rep, tier, seed, scratch):
     g = Gen(seed)
+    common.facts_obligations(rep, 'C11', scratch)
     camp_props.run_C11(rep, tier, seed)
